@@ -17,6 +17,9 @@ LEVEL_NOTE = 'Trusted: clang AST; the assembled object of jit_compiler_x86_stati
 EXPLANATION = ('MEM-MASKSET, MEM-ADDRFORM, MEM-SPADDR, MEM-DSBOUND, CG-SIZE-X86 (D-size), CG-LAYOUT, API-IO, B2-INBOUND. CG-SIZE-A64, CG-SIZE-RV64, RV-RCPPOOL. BIND-EXCL, AES-COVER.'
          ' X86-/A64-/RV-MEM-HSEM, BIND-GUARD.')
 
+CLAIM += (' The effective address of every memory-form instruction and of ISTORE, as the three JIT back-ends emit it, is the masked term of specification 5.2.5 on every boundary immediate (X86-MEM-HSEM, A64-MEM-HSEM, RV-MEM-HSEM, scalar and vector), and the dataset offset range is evaluated from the configuration (DS-RANGE-EVAL).')
+EXPLANATION += ' X86-MEM-HSEM, A64-MEM-HSEM, RV-MEM-HSEM, DS-RANGE-EVAL.'
+
 
 def run(ctx, R):
     F = astq.Facts(ctx, 'K0')
